@@ -9,6 +9,10 @@ func genC12(p *Plan, r *RNG) {
 		genC12CloseInWrite(p, r)
 		return
 	}
+	if r.Chance(1, 8) {
+		genC12Unawaited(p, r)
+		return
+	}
 	p.World = "cli"
 	p.Flavor = "txn"
 	p.Cfg = Config{Realm: "sim.realm", LatCSns: int64(r.Range(1, 60))*ms + int64(r.Intn(1000))*7 + 3, LatSPns: ms,
@@ -119,4 +123,39 @@ func genC12CloseInWrite(p *Plan, r *RNG) {
 	}
 	p.Ops = append(p.Ops, Op{Actor: "app", Kind: "client_close", At: gap(at)})
 	p.QuietNS = 20 * sec
+}
+
+// genC12Unawaited: the one transaction nobody waits for - the Refresh with lifetime 0 that
+// closing the relayed socket sends - goes unanswered for some transmissions while other
+// transactions start and finish beside it. Each transaction keeps to its own identifier, its
+// own bytes and its own timetable.
+func genC12Unawaited(p *Plan, r *RNG) {
+	p.World = "cli"
+	p.Flavor = "txn-unawaited"
+	p.Cfg = Config{Realm: "sim.realm", LatCSns: int64(r.Range(1, 40))*ms + 3, LatSPns: ms, RTOms: r.PickInt([]int{0, 50, 100, 200, 400}), Extra: map[string]int64{}}
+	rto := int64(p.Cfg.RTOms) * ms
+	if rto == 0 {
+		rto = 200 * ms
+	}
+	p.Ops = append(p.Ops, Op{Actor: "app", Kind: "alloc", At: gap(10 * ms)})
+	if r.Chance(1, 2) {
+		p.Ops = append(p.Ops, Op{Actor: "app0", Kind: "writeto", At: gap(500 * ms), A: OpArgs{Peer: "10.0.2.1:5000", Len: 20}})
+	}
+	p.Ops = append(p.Ops, Op{Actor: "app", Kind: "close_relay", At: gap(int64(r.Range(500, 3000)) * ms)})
+	// the Refresh 0 is answered at its k-th transmission, or never
+	if k := r.Range(2, 8); k <= 7 {
+		for a := 1; a < k; a++ {
+			p.Reactions = append(p.Reactions, Reaction{Method: "refresh", Attempt: a, Do: "drop"})
+		}
+	} else {
+		p.Reactions = append(p.Reactions, Reaction{Method: "refresh", Do: "drop"})
+	}
+	for n := r.Range(1, 3); n > 0; n-- {
+		g := r.PickI64([]int64{ms, rto / 2, rto - ms, rto + ms, 2 * rto, int64(r.Range(1, 3000)) * ms})
+		p.Ops = append(p.Ops, Op{Actor: "app", Kind: "bind_txn", At: gap(g)})
+	}
+	if r.Chance(1, 3) {
+		p.Ops = append(p.Ops, Op{Actor: "app", Kind: "alloc", At: gap(int64(r.Range(1, 2000)) * ms)})
+	}
+	p.QuietNS = 15 * sec
 }
